@@ -31,7 +31,7 @@ class Unit(object):
     def __init__(self, name, fn, bounds=None, max_paths=3000, replay=None,
                  exceptions_are_violations=True, expect_reach=True, tol=1e-6,
                  verdict_timeout_ms=None, program=None, time_budget_s=None,
-                 allow_aborts=False, n_programs=None, optional=False):
+                 allow_aborts=False, n_programs=None, optional=False, fidelity=1):
         self.name = name
         self.fn = fn
         self.bounds = bounds or {}
@@ -50,6 +50,7 @@ class Unit(object):
         # listed in the evidence as undecided -- instead of making the whole check inconclusive.  Reproduced
         # violations, exceptions and aborts are reported as for any other unit.
         self.optional = optional
+        self.fidelity = fidelity      # number of explored paths re-run concretely on the unstubbed real code
 
 
 class FunctionHits(object):
@@ -151,6 +152,39 @@ def run_unit(unit, tier):
         res["inconclusive"].append({"unit": unit.name, "label": "path/time budget exhausted", "kind": "budget"})
     if unit.expect_reach and s["queries"] == 0:
         res["inconclusive"].append({"unit": unit.name, "label": "no obligation reached (vacuous)", "kind": "vacuous"})
+    # ---- fidelity pass (Serval-style validation of harness + stubs against the unstubbed real code) ---------
+    # A satisfying assignment of an explored path is turned into plain floats and the SAME harness is run in
+    # concrete mode: real PyGOM on real numpy/scipy (real integrators, real scipy.stats), no proxies, no solver.
+    # Every assertion evaluated there must hold numerically.  A failure means the symbolic model (a stub
+    # contract, the oracle or the proxy arithmetic) disagrees with the real libraries: inconclusive, never a pass.
+    res["fidelity"] = {"validated": 0, "skipped": 0, "mismatch": 0, "assertions_evaluated": 0}
+    if unit.fidelity and os.environ.get("PGV_NO_FIDELITY") != "1":
+        done = 0
+        for p in ex.paths:
+            if done >= unit.fidelity:
+                break
+            if p.status != "ok" or not p.obligations or any(o.status != "unsat" for o in p.obligations):
+                continue
+            done += 1
+            try:
+                vals = path_model(unit, p, ex)
+                if not vals:
+                    res["fidelity"]["skipped"] += 1
+                    continue
+                with contextlib.redirect_stdout(io.StringIO()):
+                    cc, status, exc = sym.run_concrete(unit.fn, vals, unit.tol)
+            except BaseException as e:
+                res["fidelity"]["skipped"] += 1
+                continue
+            if status == "ok" and cc.passed and not cc.failed:
+                res["fidelity"]["validated"] += 1
+                res["fidelity"]["assertions_evaluated"] += len(cc.passed)
+            elif cc.failed:
+                res["fidelity"]["mismatch"] += 1
+                res["inconclusive"].append({"unit": unit.name, "label": "fidelity: real code with floats fails %r at a point where the symbolic run proved it" % (cc.failed[:3],),
+                                            "kind": "fidelity-mismatch", "values": vals, "path": p.index})
+            else:
+                res["fidelity"]["skipped"] += 1
     res["undecided_optional"] = []
     if unit.optional:
         keep = []
@@ -341,6 +375,7 @@ def run_check(check, tier, seed, jobs=None, only=None):
         "stubs": check.stubs,
         "known_findings_matched": sorted({f["match"] for f, _ in known}),
         "inconclusive": [{"unit": i.get("unit"), "label": i.get("label"), "kind": i.get("kind")} for i in inconclusive][:20],
+        "fidelity": {k: int(sum(r.get("fidelity", {}).get(k, 0) for r in results)) for k in ("validated", "skipped", "mismatch", "assertions_evaluated")},
         "undecided_on_generated_programs": [u for r in results for u in r.get("undecided_optional", [])][:40],
         "violations": [{"unit": v["unit"], "label": v["label"], "replay_file": v.get("replay_file")} for v in violations][:20],
         "per_unit": [{"unit": r["unit"], "paths": r["summary"]["paths"], "queries": r["summary"]["queries"],
@@ -357,7 +392,7 @@ def run_check(check, tier, seed, jobs=None, only=None):
     elif check.level == "model_checking":
         cov["states"] = max(1, int(agg["paths"]))
         cov["transitions"] = max(1, int(agg["queries"]))
-        cov["traces_validated_against_impl"] = int(extra.get("fidelity_points", 0))
+        cov["traces_validated_against_impl"] = int(sum(r.get("fidelity", {}).get("validated", 0) for r in results))
     cov["evaluations"] = max(1, int(agg["queries"]))
     cov["distinct_nontrivial"] = max(2, int(agg["queries_unsat"]) - 0) if int(agg["queries_unsat"]) >= 2 else 2
     cov["rule"] = ("one evaluation = one solver query 'path condition AND assumptions AND NOT property' over all "
@@ -400,7 +435,7 @@ def _worker(i):
     except BaseException as e:
         return {"unit": _UNITS[i].name, "bounds": _UNITS[i].bounds, "program": _UNITS[i].program, "n_programs": 0,
                 "summary": {"paths": 0, "queries": 0, "queries_unsat": 0, "solver_time_s": 0.0},
-                "violations": [], "functions": {}, "reach": {}, "witnesses": {}, "samples": [], "undecided_optional": [],
+                "violations": [], "functions": {}, "reach": {}, "witnesses": {}, "samples": [], "undecided_optional": [], "fidelity": {},
                 "theory": {"side_queries": 0, "instances": 0, "secs": 0.0}, "wall_s": 0.0,
                 "inconclusive": [{"unit": _UNITS[i].name, "label": "harness error: %r" % (e,), "kind": "harness-error",
                                   "tb": traceback.format_exc()[-1500:]}]}
